@@ -70,6 +70,12 @@ def r01_1(ctx):
             kind = _classify_tag_cond(expr_str(cond)) if cond is not None else "else"
             kinds.append(kind)
             results[kind] = expr_str(br)
+        for cond, br in chain or []:
+            if cond is not None and _classify_tag_cond(expr_str(cond)) == "custom":
+                ds = [expr_str(d_) for d_ in disjuncts(cond)]
+                exact = len(ds) == 1 and re.fullmatch(r"self\.options\.custom_element_patterns\.iter\(\)\.any\(\|(\w+)\| \1\.is_match\(name\)\)", ds[0]) is not None
+                r.ob("tag function: a custom element is a tag that matches a configured pattern, nothing else", exact, C.mloc(tag, cond),
+                     ds[0][:90] if exact else "the test has further alternatives %s: tags are taken for custom elements whatever customElementPatterns says" % [d_[:50] for d_ in ds if "custom_element_patterns" not in d_][:2])
         order_ok = kinds == ["html", "fragment", "custom", "unresolved", "else"]
         r.ob("tag function: precedence html > Fragment > custom pattern > unresolved > bound identifier", order_ok, C.mloc(tag, ident_arm), "order found: %s" % kinds)
         want = {"html": "Lit(Str(", "custom": "Lit(Str(", "fragment": "import_from_vue('Fragment')", "unresolved": "'resolveComponent'", "else": "Ident(ident)"}
@@ -336,6 +342,29 @@ def r01_6(ctx):
     return r
 
 
+def r01_7(ctx):
+    r = Rule("R01.7", "with mergeProps on a spread is always a merge argument of its own: the properties of a spread object literal are spliced into the pending attributes only with mergeProps off",
+             "spliced entries get plain last-wins semantics: a listener / class / style coming from the spread is silently replaced by a later attribute")
+    fold = C.role_or_fail(ctx, r, "attr_fold")
+    if not fold:
+        return r
+    r.saw(fold["path"])
+    idx = HirIndex(fold)
+    n = 0
+    for x in idx.nodes:
+        if x.get("k") == "MethodCall" and x["method"] in ("extend_from_slice", "extend", "append") and (local_of(x["recv"]) or ("", 0))[0] == "props" and x["args"]:
+            at = expr_str(x["args"][0])
+            if not at.endswith(".props"):
+                continue
+            n += 1
+            facts = idx.known_true(x)
+            off = any(isinstance(f, tuple) and field_path(strip_transparent(f[1])) == "self.options.merge_props" for f in facts)
+            r.ob("splice of a spread object's properties #%d happens with mergeProps off" % n, off, C.mloc(fold, x),
+                 "under !merge_props" if off else "`props.%s(%s)` is reachable with mergeProps on" % (x["method"], at[:40]))
+    r.ob("splices of spread object literals examined", n > 0, "-", "%d site(s)" % n)
+    return r
+
+
 def r01_4(ctx):
     r = Rule("R01.4", "attribute value table: string -> whitespace-normalised fresh literal; no value -> true; namespaced name keeps its colon; transformOn helper import",
              "a wrong default or name changes the prop")
@@ -390,7 +419,7 @@ def r01_4(ctx):
 def rules(ctx):
     from ..engine import only
     from . import c02
-    return [__import__('vjsx.rules.c10', fromlist=['x']).field_ratchet('a memo on the visitor makes the props of one element depend on an earlier one'), r01_1, r01_2, r01_3, r01_4, r01_5, r01_6, c14.r14_6, c02.r02_1, c02.r02_5,
+    return [__import__('vjsx.rules.c10', fromlist=['x']).field_ratchet('a memo on the visitor makes the props of one element depend on an earlier one'), r01_1, r01_2, r01_3, r01_4, r01_5, r01_6, r01_7, c14.r14_6, c02.r02_1, c02.r02_5,
             only(c07.r07_6, lambda k: "transform_attrs" in k or k.startswith("JSX attribute literal"), "string attribute values"),
             c11.r11_4]
 
